@@ -89,6 +89,15 @@ JMove(ev, reg, opts) ==
 \* ev.axes: the axes given (possibly negative); ev.axis_none: no axis given
 AxesOf(ev, nd) == IF ev.axis_none THEN 0..(nd - 1) ELSE {NormAxis(ev.axes[i], nd) : i \in 1..Len(ev.axes)}
 OptArg(ev, reg, flag, pos) == IF flag THEN <<reg[ev.args[pos]].d>> ELSE <<>>
+\* diff: prepend / append are joined to the array before differencing, so the result carries numpy's promoted dtype of
+\* all operands (a Python number counts as the array numpy makes of it); with n = 0 the input comes back as it is.
+\* ediff1d: to_begin / to_end are cast to the array's dtype (numpy refuses them unless that cast is "same kind").
+DiffDType(ev, reg) ==
+  LET want == IF ev.n = 0 THEN reg[ev.args[1]].v.dtype
+              ELSE FoldLeft(LAMBDA acc, x : Promote(acc, reg[x].v.dtype), reg[ev.args[1]].v.dtype, ev.args)
+  IN IF ev.res[1].dtype # want THEN "dtype" ELSE "ok"
+KindRank(d) == CASE Kind(d) = "b" -> 0 [] Kind(d) \in {"u", "i"} -> 1 [] Kind(d) = "f" -> 2 [] Kind(d) = "c" -> 3
+EDiffAccepted(ev, reg) == \A i \in 2..Len(ev.args) : KindRank(reg[ev.args[i]].v.dtype) <= KindRank(reg[ev.args[1]].v.dtype)
 JReduce(ev, reg) ==
   LET a == reg[ev.args[1]].d
       nd == Len(a.shape)
@@ -111,11 +120,15 @@ JReduce(ev, reg) ==
             LET ax == NormAxis(ev.axes[1], nd)
                 pre == OptArg(ev, reg, ev.has_pre, 2)
                 app == OptArg(ev, reg, ev.has_app, IF ev.has_pre THEN 3 ELSE 2)
-            IN ExpectDen(ev, "poly", DDiff(a, ev.n, ax, pre, app))
+                own == ExpectDen(ev, "poly", DDiff(a, ev.n, ax, pre, app))
+            IN IF own # "ok" THEN own ELSE DiffDType(ev, reg)
        [] ev.fn = "ediff1d" ->
             LET bg == OptArg(ev, reg, ev.has_pre, 2)
                 en == OptArg(ev, reg, ev.has_app, IF ev.has_pre THEN 3 ELSE 2)
-            IN ExpectDen(ev, "poly", DEDiff1d(a, bg, en))
+                own == ExpectDen(ev, "poly", DEDiff1d(a, bg, en))
+            IN IF ~EDiffAccepted(ev, reg) THEN "ok"          \* numpy itself refuses these arguments: outside the quantifier
+               ELSE IF own # "ok" THEN own
+               ELSE IF ev.res[1].dtype # reg[ev.args[1]].v.dtype THEN "dtype" ELSE "ok"
        [] ev.fn = "inner" ->
             LET b == reg[ev.args[2]].d
             IN IF Len(a.shape) # 1 \/ b.shape # a.shape THEN "ok"       \* only vectors are claimed
